@@ -195,6 +195,36 @@ func runSignSpec(r *Runner, s signSpec, idx int) {
 		chain = c
 	case "other-identity":
 		chain = getIdentity("ec384-0", 2).chain
+	case "root-expired-at-st", "root-not-yet-valid-at-st", "intermediate-expired-at-st", "intermediate-not-yet-valid-at-st", "root-expires-at-st":
+		// only one certificate above the leaf is outside its validity at the signing time; the leaf and the others are inside
+		n := s.chainLen
+		if n < 2 {
+			n = 2
+		}
+		if strings.HasPrefix(s.chainMut, "intermediate") && n < 3 {
+			n = 3
+		}
+		specs := validSpecs(n, "cs", s.keyID, func(i int) string { return fmt.Sprintf("ec256-%d", 70+i) })
+		pos := n - 1
+		if strings.HasPrefix(s.chainMut, "intermediate") {
+			pos = 1
+		}
+		st := s.st.Truncate(time.Second)
+		switch {
+		case strings.Contains(s.chainMut, "expired"):
+			specs[pos].NotAfter = st.Add(-time.Second)
+		case strings.Contains(s.chainMut, "expires-at"):
+			specs[pos].NotAfter = st // the last second of validity: still valid
+		default:
+			specs[pos].NotBefore = st.Add(time.Second)
+		}
+		for i := range specs {
+			specs[i].CN = fmt.Sprintf("narrow-%s-%d", s.chainMut, i)
+		}
+		// (a signing time no certificate can express — year 10000, the zero time — leaves the ordinary chain in place)
+		if c, _, err := buildChain(specs); err == nil {
+			chain = c
+		}
 	}
 	if s.emptyChain {
 		chain = []*x509.Certificate{}
@@ -678,7 +708,8 @@ func genSign(r *Runner, prop string) {
 	add("signer-nil-chain", "remote", func(s *signSpec) { s.nilChain = true })
 	add("signer-empty-chain", "", func(s *signSpec) { s.emptyChain = true })
 	add("signer-empty-signature", "remote", func(s *signSpec) { s.emptySig = true })
-	for _, cm := range []string{"bad-leaf-ku", "missing-root", "reversed", "other-identity"} {
+	for _, cm := range []string{"bad-leaf-ku", "missing-root", "reversed", "other-identity", "root-expired-at-st", "root-not-yet-valid-at-st",
+		"intermediate-expired-at-st", "intermediate-not-yet-valid-at-st", "root-expires-at-st"} {
 		cm := cm
 		add("chain-"+cm, "", func(s *signSpec) { s.chainMut = cm })
 	}
